@@ -1,26 +1,88 @@
 """C04 - a run always ends in a valid exit status and never leaks a handler failure."""
-import itertools, math
+import itertools, math, json
 from hutil import S, unS
+import parsergen as G
+import treegen as T
+import props.C09 as C09
 
 MODEL = "C04"
 PROP_FILES = ["Props/C04.v"]
-RULE = ("handler outcome (23 return values: None/False/0/negative/>255/bool/numeric and non-numeric strings/floats incl. nan, inf/"
-        "sequences/objects; exceptions: RuntimeError, ValueError, library error, KeyboardInterrupt, exceptions with a 'code' "
-        "attribute, chained causes, 10 messages incl. multi-line, non-ASCII, opening/closing/unbalanced style tags, raised from a "
+RULE = ("handler outcome (27 return values: None/False/0/negative/>255/bool/numeric and non-numeric strings incl. '2.7', '1e2', "
+        "'1_0'/floats incl. nan, inf, -0.5/sequences/objects; exceptions: RuntimeError, ValueError, library error, KeyboardInterrupt, exceptions with a 'code' "
+        "attribute, chained causes (explicit and implicit), OSError, SyntaxError, a sixty-frame traceback, an exception whose __str__ raises, 10 messages incl. multi-line, non-ASCII, opening/closing/unbalanced style tags, raised from a "
         "source file, from exec'd source-less code, from a file containing markup) x verbosity {normal,-v,-vv,-vvv} x 8 pre-handle "
-        "listener set-ups (pass / handle / handle+stop / fail) x exception catching on; non-trivial = distinct (outcome kind, "
-        "exception shape, listener behaviour); distinct by the whole case")
+        "listener set-ups (pass / handle / handle+stop / fail) x exception catching on; x 16 command lines of a "
+        "DefaultApplicationConfig application 'go [target] [--num INT] [-f]' with sub-command 'go deep [extra]' and a second command "
+        "'other' (arguments and options on the line, the sub-command, the other command, unknown command, unknown option, too many "
+        "arguments, a value of the wrong type, -q, '--' tails) x an io factory that raises x a resolver of one's own that hands a "
+        "rewritten line to the default resolver or raises; every handler records its command and the arguments / options it was "
+        "given (compared with the model's resolver + parser and, in the oracle, with Command.parse on a second application); the "
+        "printed report must contain the message; non-trivial = distinct (outcome kind, exception shape, listener behaviour, line, "
+        "failing step); distinct by the whole case")
 TRUSTED = ["the report renderer is the trace model of C20 (Proofs/RunTraceLemmas.v composes it with the run model); Run.exn carries only the "
            "two flags the run logic reads - class name, message, frames and solutions of the exception are universally quantified inputs"]
-ASSUMPTIONS = ["SystemExit / GeneratorExit are outside the quantifier; KeyboardInterrupt maps to status 1 without a report by design"]
+ASSUMPTIONS = ["SystemExit / GeneratorExit are outside the quantifier; KeyboardInterrupt maps to status 1 without a report by design",
+               "with -q / --quiet on the line the report is rendered to a quiet io and nothing is printed (the switch's meaning, C09): "
+               "'printed error report' is demanded of the runs whose io is not quiet; a failing io factory is reported on the "
+               "preliminary io, which no switch silences",
+               "lines carrying a help or version switch are C09's; the lines here have none",
+               "terminate_after_run is off (with it on, run() ends in sys.exit(status) by design); of an exception whose __str__ itself "
+               "raises only the report is demanded, not a message in it; non-ASCII decimal digits in a returned string "
+               "(int() accepts them, Model/Conv.v int_of_str does not) are not generated"]
 
-RETS = [None, False, 0, -3, 300, True, "12", " 7 ", "abc", "", 2.7, 0.3, 0.0, "nan", "inf", [], [0], "OBJ", 255, 256, 1, -1, "0", "-0"]
+RETS = [None, False, 0, -3, 300, True, "12", " 7 ", "abc", "", 2.7, 0.3, 0.0, "nan", "inf", [], [0], "OBJ", 255, 256, 1, -1, "0", "-0",
+        "2.7", "1e2", -0.5, "1_0", "+5"]
 MSGS = ["boom", "two\nlines", "naïve é λ", "<error>open", "close</error>", "</b>", "<b>bold</b> and <c1>x</c1>", "a < b > c",
         "trailing backslash \\", "<fg=red>x</>"]
-EXCS = ["RuntimeError", "ValueError", "Lib", "KeyboardInterrupt", "CodeInt", "CodeNone", "CodeStr", "Chained", "TypeError", "AttributeError"]
+EXCS = ["RuntimeError", "ValueError", "Lib", "KeyboardInterrupt", "CodeInt", "CodeNone", "CodeStr", "Chained", "TypeError", "AttributeError",
+        "Context", "OSError", "SyntaxError", "Deep", "BadStr"]
 ORIGINS = ["file", "exec", "markupfile"]
 LISTENERS = [[], [[0]], [[1, 0, 0]], [[1, 5, 1]], [[2, "RuntimeError"]], [[0], [1, "abc", 0]], [[1, None, 0], [0]], [[2, "Lib"]],
              [[2, "KeyboardInterrupt"]]]
+
+
+# ---------------------------------------------------------------- the application and its command lines
+GO = T.cmd("go", args=[G.arg("target", G.A_OPT, "dflt")],
+           opts=[G.opt("num", "u", G.REQ_V | G.O_INT, None), G.opt("flag", "f", G.NO_VALUE)],
+           subs=[T.cmd("deep", args=[G.arg("extra", G.A_OPT, None)])])
+OTHER = T.cmd("other")
+TREE = {"opts": list(C09.GLOBAL_OPTS), "args": [], "cmds": [C09.HELP_CMD, GO, OTHER]}
+# (tokens, name path of the command the line selects - None: the line does not resolve)
+LINES = [(["go"], ["go"]),
+         (["go", "tgt"], ["go"]),
+         (["go", "tgt", "--num", "5"], ["go"]),
+         (["go", "--num=7", "-f", "tgt"], ["go"]),
+         (["go", "deep", "a", "b"], ["go", "deep"]),
+         (["other"], ["other"]),
+         (["nosuch"], None),
+         (["go", "--nosuch"], None),
+         (["go", "x", "y"], None),
+         (["go", "--num=abc"], None),
+         (["go", "-q"], ["go"]),
+         (["go", "tgt", "-u", "3", "--quiet"], ["go"]),
+         (["nosuch", "-q"], None),
+         (["go", "-fu", "9", "--", "-q"], ["go"]),
+         (["go", "deep", "--flag", "--", "--num"], ["go", "deep"]),
+         (["other", "x"], None)]
+VERB = ["", "-v", "-vv", "-vvv"]
+IOFAIL = ["RuntimeError", "Lib", "KeyboardInterrupt"]
+EARLY_MSG = "early <b>failure</b>\nsecond line"
+
+
+def tokens(c):
+    """the line run() is given: the verbosity switch as the last option token (before a '--'; -v takes an optional value and
+    would swallow an argument standing behind it); under the rewriting resolver a leading 'wrap' token, which that resolver
+    strips"""
+    toks = list(LINES[c.get("line", 0)][0])
+    if c["verb"]:
+        toks.insert(toks.index("--") if "--" in toks else len(toks), VERB[c["verb"]])
+    if c.get("rs") == ["wrap"]:
+        toks = ["wrap"] + toks
+    return toks
+
+
+def delegate_tokens(c):
+    return tokens(c)[1:]
 
 
 def gen(rng, tier, info):
@@ -43,9 +105,35 @@ def gen(rng, tier, info):
             d["hk"] = "callback"
             extra.append(d)
     cases.extend(extra)
+    # the other command lines; failing io factories; resolvers of one's own
+    quick = tier != "thorough"
+    outs = [["ret", r] for r in ((0, 2, 4, 6, 8, 17, 24, 26) if quick else range(len(RETS)))]
+    outs += [["raise", e, mi, "file"] for e, mi in ((("RuntimeError", 0), ("Lib", 5), ("Lib", 1), ("KeyboardInterrupt", 0), ("ValueError", 6)) if quick
+                                                   else [(e, mi) for e in EXCS for mi in (0, 1, 5, 6)])]
+    lss = (0, 1, 3, 4) if quick else range(len(LISTENERS))
+    lines = []
+    for li in lss:
+        for v in ((0, 3) if quick else range(4)):
+            for o in outs:
+                for ln in range(1, len(LINES)):
+                    lines.append({"verb": v, "ls": li, "out": o, "line": ln})
+                for ln in (0, 2, 4, 6, 10, 13):
+                    lines.append({"verb": v, "ls": li, "out": o, "line": ln, "rs": ["wrap"]})
+    early = []
+    for v in (0, 3):
+        for o in outs[:3] + outs[-5:-3]:
+            for ln in (0, 2, 6, 8, 10, 12):
+                for li in (0, 3):
+                    for e in IOFAIL:
+                        early.append({"verb": v, "ls": li, "out": o, "line": ln, "io": e})
+                        early.append({"verb": v, "ls": li, "out": o, "line": ln, "rs": ["raise", e]})
+                    early.append({"verb": v, "ls": li, "out": o, "line": ln, "io": "Lib", "rs": ["raise", "RuntimeError"]})
+    cases.extend(lines)
+    cases.extend(early)
     info["exhaustive"] = tier != "quick"
     info["distribution"] = {"returns": len(RETS), "exceptions": len(EXCS), "messages": len(MSGS), "origins": len(ORIGINS),
-                            "listener_setups": len(LISTENERS), "cases": len(cases)}
+                            "listener_setups": len(LISTENERS), "lines": len(LINES), "cases_on_other_lines": len(lines),
+                            "failing_io_factory_or_resolver": len(early), "cases": len(cases)}
     return cases
 
 
@@ -86,13 +174,21 @@ def wire(c):
             ls.append([2, wire_exn(l[1])])
     o = c["out"]
     out = [0, wire_ret(RETS[o[1]])] if o[0] == "ret" else [1, wire_exn(o[1])]
-    return [1, int(c["verb"] == 3), ls, out]
+    rs = c.get("rs")
+    rv = [0] if rs is None else [1, [S(t) for t in delegate_tokens(c)]] if rs == ["wrap"] else [2, wire_exn(rs[1])]
+    iof = [] if c.get("io") is None else [wire_exn(c["io"])]
+    return [1, T.wire_app(TREE), [S(t) for t in tokens(c)], iof, rv, ls, out]
 
 
 def describe(c):
     o = c["out"]
     what = ("handler returns %r" % (RETS[o[1]],)) if o[0] == "ret" else ("handler raises %s(%r) from %s" % (o[1], MSGS[o[2]], o[3]))
-    return "%s%s; verbosity %s; pre-handle listeners %r" % (what, " (callback handler)" if c.get("hk") == "callback" else "", ["normal", "-v", "-vv", "-vvv"][c["verb"]], LISTENERS[c["ls"]])
+    more = ""
+    if c.get("io"):
+        more += "; the io factory raises %s" % c["io"]
+    if c.get("rs"):
+        more += "; resolver: %s" % ("strips the leading token and hands the rest to the default resolver" if c["rs"] == ["wrap"] else "raises " + c["rs"][1])
+    return "line %r: %s%s; pre-handle listeners %r%s" % (tokens(c), what, " (callback handler)" if c.get("hk") == "callback" else "", LISTENERS[c["ls"]], more)
 
 
 _TMP = {}
@@ -128,6 +224,35 @@ def _mk_exc(name, msg):
         e = RuntimeError(msg)
         e.code = {"CodeInt": 3, "CodeNone": None, "CodeStr": "x"}[name]
         return e
+    if name == "Context":
+        # an implicit __context__: raised while another exception was being handled
+        try:
+            try:
+                raise KeyError("inner </error>")
+            except KeyError:
+                raise RuntimeError(msg)
+        except RuntimeError as e:
+            return e
+    if name == "BadStr":
+        # an exception whose __str__ raises: there is no message to show, the report must appear all the same (fix 4e70bc4)
+        class BadStr(Exception):
+            def __str__(self):
+                raise RuntimeError("no message")
+        return BadStr(msg)
+    if name == "OSError":
+        return OSError(2, msg, "/no/such <b>file")
+    if name == "SyntaxError":
+        return SyntaxError(msg, ("some <file>.py", 3, 7, "x = (</b>\n"))
+    if name == "Deep":
+        # raised sixty frames down
+        def down(n):
+            if n == 0:
+                raise RuntimeError(msg)
+            down(n - 1)
+        try:
+            down(60)
+        except RuntimeError as e:
+            return e
     if name == "Chained":
         try:
             try:
@@ -164,37 +289,39 @@ def _raiser(origin):
     return _TMP["markup"]
 
 
-def run_impl(c):
+def _mk_app(c, calls, catch=True):
+    """a DefaultApplicationConfig application for TREE; every command's handler records (command path, what the handler was
+    given) and then behaves as the case says.  Built with sys.stdout / sys.stderr swapped: the preliminary io of the
+    application (where a failure of the io factory is reported) writes to the streams it finds at construction."""
     from clikit.config import DefaultApplicationConfig
     from clikit import ConsoleApplication
-    from clikit.args import ArgvArgs
     from clikit.api.event import PRE_HANDLE
-    from clikit.io.output_stream import BufferedOutputStream
-    from clikit.io.input_stream import StringInputStream
-    calls = []
+    from clikit.resolver.default_resolver import DefaultResolver
+    from clikit.args import ArgvArgs
     o = c["out"]
+    ref = {}
 
     class Handler(object):
         def handle(self, args, io, command):
-            calls.append(1)
+            if command is None:
+                command = ref["app"].get_command("go")        # a callback is not told its command
+            calls.append([[S(p) for p in command.full_name.split(" ")], G.observe_args(command.args_format, args, [])])
             if o[0] == "ret":
                 return _py_ret(RETS[o[1]])
             _raiser(o[3])(_mk_exc(o[1], MSGS[o[2]]))
 
+    def handler(cmd):
+        h = Handler()
+        if c.get("hk") == "callback" and cmd["name"] == "go":
+            # the handler is a plain callable (CallbackHandler); it tolerates a third parameter, as callbacks may
+            from clikit.handler.callback_handler import CallbackHandler
+            return CallbackHandler(lambda args, io, command=None: h.handle(args, io, command))
+        return h
+
     config = DefaultApplicationConfig("app", "1.0")
     config.set_terminate_after_run(False)
-    config.set_catch_exceptions(True)
-    h = Handler()
-    if c.get("hk") == "callback":
-        # the handler is a plain callable (CallbackHandler); it tolerates a third parameter, as callbacks may
-        from clikit.handler.callback_handler import CallbackHandler
-        g_handler = CallbackHandler(lambda args, io, command=None: h.handle(args, io, command))
-    else:
-        g_handler = h
-    with config.command("go") as g:
-        g.set_handler(g_handler)
-    with config.command("other") as g2:
-        g2.set_handler(type("H2", (), {"handle": lambda self, a, i, cmd: calls.append(2)})())
+    T.mk_config({"opts": [], "args": [], "cmds": [x for x in TREE["cmds"] if x["name"] != "help"]}, config, handler)
+    config.set_catch_exceptions(catch)
     prio = 100
     for l in LISTENERS[c["ls"]]:
         def mk(l):
@@ -209,17 +336,74 @@ def run_impl(c):
             return listener
         config.add_event_listener(PRE_HANDLE, mk(l), prio)
         prio -= 1
-    app = ConsoleApplication(config)
-    out, errs = BufferedOutputStream(), BufferedOutputStream()
-    toks = ["go"] + ([["", "-v", "-vv", "-vvv"][c["verb"]]] if c["verb"] else [])
+    if c.get("io"):
+        def factory(*a):
+            raise _mk_exc(c["io"], EARLY_MSG)
+        config.set_io_factory(factory)
+    rs = c.get("rs")
+    if rs == ["wrap"]:
+        class Rewriting(DefaultResolver):
+            """strips the first token and lets the default resolution work on NEW raw arguments"""
+            def resolve(self, args, application):
+                return super(Rewriting, self).resolve(ArgvArgs(["script"] + list(args.tokens[1:])), application)
+        config.set_command_resolver(Rewriting())
+    elif rs:
+        class Raising(DefaultResolver):
+            def resolve(self, args, application):
+                raise _mk_exc(rs[1], EARLY_MSG)
+        config.set_command_resolver(Raising())
+    ref["app"] = ConsoleApplication(config)
+    return ref["app"]
+
+
+def _expected(c):
+    """what the property text lets one expect of the line, computed WITHOUT run(): the command at the line's name path of
+    a second application parses the tokens the resolver works on (Command.parse, the command's own leniency)
+    -> [path, observation of the args] or ["!", message of the exception]"""
+    from clikit.args import ArgvArgs
+    toks = delegate_tokens(c) if c.get("rs") == ["wrap"] else tokens(c)
+    path = LINES[c.get("line", 0)][1]
+    app = _mk_app(dict(c, io=None, rs=None), [], False)
+    raw = ArgvArgs(["script"] + toks)
+    if path is None:
+        try:
+            app.resolve_command(raw)
+        except Exception as e:
+            return ["!", str(e)]
+        return ["!", None]
+    cmd = app.get_command(path[0])
+    for n in path[1:]:
+        cmd = cmd.get_sub_command(n)
     try:
-        st = app.run(ArgvArgs(["script"] + toks), StringInputStream(""), out, errs)
-        end = [0, st] if (isinstance(st, int) and not isinstance(st, bool)) else [9, S(repr(st))]
-    except BaseException as e:
-        from clikit.api.exceptions import CliKitException
-        end = [1, int(isinstance(e, CliKitException)), S(type(e).__name__)]
-    reported = bool(out.fetch() or errs.fetch())
-    return [end, len([x for x in calls if x == 1]), int(reported), len([x for x in calls if x == 2])]
+        a = cmd.parse(raw)
+    except Exception as e:
+        return ["!", str(e)]
+    return [[S(p) for p in path], G.observe_args(cmd.args_format, a, [])]
+
+
+def run_impl(c):
+    import sys, io as _io
+    from clikit.args import ArgvArgs
+    from clikit.io.output_stream import BufferedOutputStream
+    from clikit.io.input_stream import StringInputStream
+    calls = []
+    so, se = sys.stdout, sys.stderr
+    pre_out, pre_err = _io.StringIO(), _io.StringIO()
+    out, errs = BufferedOutputStream(), BufferedOutputStream()
+    sys.stdout, sys.stderr = pre_out, pre_err
+    try:
+        app = _mk_app(c, calls)
+        toks = tokens(c)
+        try:
+            st = app.run(ArgvArgs(["script"] + toks), StringInputStream(""), out, errs)
+            end = [0, st] if (isinstance(st, int) and not isinstance(st, bool)) else [9, S(repr(st))]
+        except BaseException as e:
+            from clikit.api.exceptions import CliKitException
+            end = [1, int(isinstance(e, CliKitException)), S(type(e).__name__)]
+    finally:
+        sys.stdout, sys.stderr = so, se
+    text = out.fetch() + errs.fetch() + pre_out.getvalue() + pre_err.getvalue()
+    return [end, calls, int(bool(text)), {"text": text, "exp": _expected(c)}]
 
 
 def canon_impl(c, o):
@@ -233,22 +417,58 @@ def canon_model_w(c, w):
     return to_wire(m[:3])
 
 
+def _failing_step(c):
+    """the exception the try block of run() meets before any handler could run: (class name, message) or None"""
+    if c.get("io"):
+        return c["io"], EARLY_MSG
+    if c.get("rs") and c["rs"] != ["wrap"]:
+        return c["rs"][1], EARLY_MSG
+    return None
+
+
+def _shows(text, msg):
+    """every line of the message stands in the report as it is (markup is shown, not interpreted)"""
+    return all(l.strip() in text for l in msg.split("\n"))
+
+
 def oracle(c, o):
-    end, calls, reported, other = o
-    if other:
-        return "another-handler-ran"
+    end, calls, printed, facts = o
+    text, exp = facts["text"], facts["exp"]
+    toks = tokens(c)
+    quiet = any(t in ("-q", "--quiet") for t in itertools.takewhile(lambda t: t != "--", toks))
     if end[0] == 1:
         return "exception-escapes-run:" + unS(end[2])
     if end[0] != 0 or not (0 <= end[1] <= 255):
         return "status-not-in-0..255"
+    early = _failing_step(c)
+    if early is None and exp[0] == "!":
+        early = ("Lib", exp[1])                    # the line does not resolve / parse: a library error with this message
+        if exp[1] is None:
+            return "harness:line-expected-to-fail-resolves"
+    if early is not None:
+        # io creation or resolution fails: no handler at all, non-zero status, the report with the message
+        if calls:
+            return "handler-ran-although-resolution-or-io-creation-failed"
+        if end[1] == 0:
+            return "exception-gives-zero-status"
+        if early[0] != "KeyboardInterrupt" and (c.get("io") or not quiet):
+            if not printed:
+                return "exception-without-error-report"
+            if not _shows(text, early[1]):
+                return "error-report-without-the-message"
+        return None
     ls = LISTENERS[c["ls"]]
     handled = any(l[0] == 1 for l in ls)
     lfail = [l for l in ls if l[0] == 2]
     # listeners run in order: a failing listener before a stopping handler wins, etc. (only simple set-ups are generated)
     out = c["out"]
     if not handled and not lfail:
-        if calls != 1:
-            return "handler-not-invoked-exactly-once"
+        if len(calls) != 1:
+            return "another-handler-ran" if any(x[0] != exp[0] for x in calls) else "handler-not-invoked-exactly-once"
+        if calls[0][0] != exp[0]:
+            return "another-handler-ran"
+        if calls[0][1] != exp[1]:
+            return "handler-not-given-the-arguments-parsed-for-the-command"
         if out[0] == "ret":
             v = _py_ret(RETS[out[1]])
             if not v:
@@ -258,23 +478,34 @@ def oracle(c, o):
                 if end[1] == 0:
                     return "truthy-result-gives-zero-status"
                 try:
-                    exp = min(max(int(v), 1), 255)
-                    if end[1] != exp or reported:
+                    exp_st = min(max(int(v), 1), 255)
+                    if end[1] != exp_st or printed:
                         return "status-not-the-clamped-result"
                 except Exception:
-                    if end[1] != 1 or not reported:
+                    if end[1] != 1 or not (printed or quiet):
                         return "unconvertible-result-not-reported"
         else:
             if end[1] == 0:
                 return "exception-gives-zero-status"
-            if out[1] != "KeyboardInterrupt" and not reported:
-                return "exception-without-error-report"
+            if out[1] != "KeyboardInterrupt" and not quiet:
+                if not printed:
+                    return "exception-without-error-report"
+                if out[1] != "BadStr" and not _shows(text, MSGS[out[2]]):
+                    return "error-report-without-the-message"
     else:
-        if calls != 0:
+        if calls:
             return "handler-ran-although-event-was-handled-or-listener-failed"
+        if lfail and not handled and lfail[0][1] != "KeyboardInterrupt" and not quiet:
+            if end[1] == 0:
+                return "exception-gives-zero-status"
+            if not printed:
+                return "exception-without-error-report"
+            if not _shows(text, "listener failed"):
+                return "error-report-without-the-message"
     return None
 
 
 def nontrivial_key(c, o):
     out = c["out"]
-    return [out[0], out[1] if out[0] == "raise" else repr(RETS[out[1]]), out[3] if out[0] == "raise" else "", c["ls"]]
+    return [out[0], out[1] if out[0] == "raise" else repr(RETS[out[1]]), out[3] if out[0] == "raise" else "", c["ls"],
+            c.get("line", 0), c.get("io"), c.get("rs")]
